@@ -196,7 +196,13 @@ def send_loop_provenance(ctx, W):
     same = okidx and okn and ie_idx["site"] == ie_nonce["site"]
     out.append(("index-and-nonce-from-one-element", same, "idx and nonce come from the same requests.iter().enumerate().next() element",
                 "idx (%s) and nonce (%s) are not the index and first component of one element of self.requests" % (values.fmt(idx_a), values.fmt(nonce_a)), sr.loc(sites[0])))
-    okp = is_call(path_a, "MerkleTree::get_paths") and path_a[2][0] == ("field", selfp, "merkle") and uncast(W.expand(path_a[2][1])) == idx_a
+    if isinstance(path_a, tuple) and path_a and path_a[0] == "obj":
+        # a buffer filled through an out-parameter form of get_paths (`get_paths_into(idx, &mut buf)` after `buf.clear()`)
+        from lib import outparam_wrapper_value
+        eq = outparam_wrapper_value(W, sr, sev, path_a, sites[0])
+        if eq is not None:
+            path_a = eq
+    okp = is_call(path_a, "MerkleTree::get_paths") and W.expand(path_a[2][0]) == ("field", selfp, "merkle") and uncast(W.expand(path_a[2][1])) == idx_a
     out.append(("path-for-same-index", okp, "PATH = self.merkle.get_paths(idx) for the same idx",
                 "PATH is %s while INDX is %s" % (values.fmt(path_a), values.fmt(idx_a)), sr.loc(sites[0])))
     sends = [bb for bb, t in sr.calls() if strip_generics(t["fn"].get("path", "")).endswith("UdpSocket::send_to")]
